@@ -4,8 +4,10 @@
 From Coq Require Extraction.
 From Coq Require Import ExtrOcamlBasic.
 From CFDP Require Import Base.Prelude Model.Segments.
+From CFDP Require Import Model.Crc.
 
 Extraction Language OCaml.
 Extraction "model.ml"
+  Crc.crc16 Crc.crc_bytes Crc.crc_frame_ok
   Segments.merge_seg Segments.gaps Segments.is_complete Segments.seg_len
   Segments.seg_end Segments.end_or_0.
